@@ -26,6 +26,8 @@ pub mod output;
 pub mod parallel;
 pub mod process;
 pub mod signature_matcher;
+#[cfg(huginn_net_verif)]
+pub mod verif_hooks;
 
 // Re-exports
 pub use akamai::{AkamaiFingerprint, Http2Priority, PseudoHeader, SettingId, SettingParameter};
